@@ -357,3 +357,6 @@ def run(ck, facts):
                 bad_js.append(v.strip()[:70])
     ck.expect(not bad_js, "R1", "js/enum.js.jinja/non-contiguous-by-value", "", "the non-contiguous branch of the JS enum looks a variant up by its position in a derived array (%s): "
               "JS orders integer-like keys numerically, so positions and discriminants disagree" % bad_js[:2], "tool/templates/js/enum.js.jinja")
+    # Dart passes enums as signed 32-bit integers (negative discriminants come back sign-extended; rule of C07.R4)
+    import c07
+    c07.run(C.SubCheck(ck, "R4", "", ["R4"], key_re=r"fmt_enum_as_ffi"), facts)
